@@ -8,6 +8,7 @@ package main
 
 import (
 	"context"
+	"database/sql"
 	"errors"
 	"flag"
 	"fmt"
@@ -43,7 +44,9 @@ func txClass(err error, panicked bool) string {
 		return "RInner"
 	case errors.Is(err, errTxCommit):
 		return "RCommit"
-	case errors.Is(err, context.Canceled):
+	case errors.Is(err, context.Canceled), errors.Is(err, sql.ErrTxDone):
+		// (database/sql answers a COMMIT under a cancelled context with the context's error, or
+		// with ErrTxDone when its watcher has already rolled the transaction back: one class)
 		return "RCtx"
 	case errors.Is(err, errTxRollback):
 		return "RRollback"
